@@ -480,7 +480,8 @@ fn loopback_burst_with(n: usize, size: usize, upstream: bool, early: bool, patie
 
 /// Two clients: a message that the transport cannot write (too large to be framed) is queued
 /// for client A, followed in the same server frame by `n` ordinary messages for client B.
-fn failed_write_next_to_healthy_client(n: usize) -> Result<Option<u64>, String> {
+/// A server with two connected clients (in connection order).
+fn two_clients(lossy_first: bool) -> Result<Option<(App, Vec<App>, Vec<Entity>)>, String> {
     let mut server = build_app();
     let socket = ExampleServer::new(0).map_err(|e| format!("bind: {e}"))?;
     let port = socket.local_addr().map_err(|e| e.to_string())?.port();
@@ -504,6 +505,11 @@ fn failed_write_next_to_healthy_client(n: usize) -> Result<Option<u64>, String> 
             };
             if now.len() == k + 1 && c.world().resource::<RepliconClient>().is_connected() {
                 conns.push(*now.iter().find(|e| !conns.contains(e)).unwrap());
+                if lossy_first && k == 0 {
+                    // (before the second client connects, so that this connection's archetype is
+                    // the older one and is visited first)
+                    server.world_mut().entity_mut(conns[0]).insert(bevy_replicon_example_backend::ConditionerConfig { latency: 0, jitter: 0, loss: 1.0 });
+                }
                 up = true;
                 break;
             }
@@ -514,6 +520,11 @@ fn failed_write_next_to_healthy_client(n: usize) -> Result<Option<u64>, String> 
         }
         clients.push(c);
     }
+    Ok(Some((server, clients, conns)))
+}
+
+fn failed_write_next_to_healthy_client(n: usize) -> Result<Option<u64>, String> {
+    let Some((mut server, mut clients, conns)) = two_clients(false)? else { return Ok(None) };
     let (a, b) = (conns[0], conns[1]);
     server.world_mut().send_event(ToClients { mode: SendMode::Direct(a), event: Down0(0, vec![7u8; 70_000]) });
     let mut want = Vec::new();
@@ -694,6 +705,14 @@ fn relayed_burst(n: usize, size: usize, upstream: bool, split: usize) -> Result<
         rx.update();
         all.append(&mut rx.world_mut().resource_mut::<Got>().0);
     }
+    if split >= total && all.len() < want.len() {
+        // every byte had been handed to the receiver's socket before these two frames
+        return Err(format!(
+            "LATE: all {total} bytes of the burst had arrived, yet two receiver frames handed over only {} of {n} messages ({:?})",
+            all.len(),
+            all.iter().map(|m| m.1).collect::<Vec<_>>()
+        ));
+    }
     if upstream { relay.forward_to_server(usize::MAX) } else { relay.forward_to_client(usize::MAX) };
     for k in 0..400 {
         let rx = if upstream { &mut server } else { &mut client };
@@ -733,6 +752,49 @@ fn header_split_points(n: usize, size: usize, total: usize) -> Vec<usize> {
     }
     v.insert(total);
     v.into_iter().filter(|&k| k <= total).collect()
+}
+
+/// Two clients: the first one's link has a conditioner that drops everything, the second one's
+/// link has none - its `n` messages must arrive untouched.
+fn conditioner_on_the_other_link(n: usize) -> Result<Option<u64>, String> {
+    let Some((mut server, mut clients, _conns)) = two_clients(true)? else { return Ok(None) };
+    server.update();
+    server.world_mut().resource_mut::<Got>().0.clear();
+    let mut want = Vec::new();
+    for i in 0..n as u32 {
+        let p = payload(i, 16);
+        clients[1].world_mut().send_event(Up0(i, p.clone()));
+        want.push((i, p));
+    }
+    clients[1].update();
+    const SENTINEL: u32 = u32::MAX;
+    clients[1].world_mut().send_event(Up0(SENTINEL, Vec::new()));
+    clients[1].update();
+    let mut all: Vec<(u8, u32, Vec<u8>)> = Vec::new();
+    let mut seen = false;
+    for _ in 0..1200 {
+        server.update();
+        all.append(&mut server.world_mut().resource_mut::<Got>().0);
+        if all.iter().any(|m| m.1 == SENTINEL) {
+            seen = true;
+            server.update();
+            all.append(&mut server.world_mut().resource_mut::<Got>().0);
+            break;
+        }
+        std::thread::sleep(Duration::from_micros(300));
+    }
+    if !seen {
+        return Err(format!("STALL: the server received {} of {n} messages and no sentinel from the client whose link has no conditioner", all.len()));
+    }
+    all.retain(|m| m.1 != SENTINEL);
+    let got: Vec<(u32, Vec<u8>)> = all.into_iter().map(|m| (m.1, m.2)).collect();
+    if got != want {
+        return Err(format!(
+            "the link of the second client has no conditioner, yet the server received {:?} instead of 0..{n} from it (the first client's link drops everything)",
+            got.iter().map(|g| g.0).collect::<Vec<_>>()
+        ));
+    }
+    Ok(Some(n as u64))
 }
 
 fn loopback_part(tier: Tier, out: &mut Outcome, bad: &mut Vec<Bad>) {
@@ -790,21 +852,37 @@ fn loopback_part(tier: Tier, out: &mut Outcome, bad: &mut Vec<Bad>) {
     }
     // segmentation owned by the harness: the burst's bytes arrive in two pieces
     let mut relay_runs = 0u64;
-    for &(n, size) in &[(1usize, 2usize), (2, 2), (3, 130)] {
+    for &(n, size) in &[(1usize, 2usize), (2, 2), (3, 130), (12, 2)] {
         for upstream in [false, true] {
             let mut attempt = |split: usize| -> Option<Result<Option<usize>, String>> {
+                let mut late = None;
                 for _ in 0..3 {
                     match guarded(|| relayed_burst(n, size, upstream, split)).unwrap_or_else(|(m, l)| Err(format!("panic: {m} ({l})"))) {
                         Ok(None) => continue,
+                        // (timing-sensitive: only a verdict if it happens in all three attempts)
+                        Err(e) if e.starts_with("LATE") => late = Some(e),
                         other => return Some(other),
                     }
                 }
-                None
+                late.map(Err)
             };
-            let Some(Ok(Some(total))) = attempt(usize::MAX) else {
-                inconclusive += 1;
-                runs += 1;
-                continue;
+            let total = match attempt(usize::MAX) {
+                Some(Ok(Some(total))) => total,
+                Some(Err(e)) => {
+                    runs += 1;
+                    bad.push(Bad {
+                        oracle: if e.starts_with("bind") || e.starts_with("connect") { "socket" } else { "loopback-segmented" },
+                        case: format!("{n} messages of {size} bytes, {}, all bytes at once", if upstream { "client -> server" } else { "server -> client" }),
+                        detail: e,
+                        replay: json!({"kind": "loopback", "n": n, "size": size, "upstream": upstream, "split": 1_000_000}),
+                    });
+                    continue;
+                }
+                _ => {
+                    inconclusive += 1;
+                    runs += 1;
+                    continue;
+                }
             };
             for split in header_split_points(n, size, total) {
                 runs += 1;
@@ -855,6 +933,39 @@ fn loopback_part(tier: Tier, out: &mut Outcome, bad: &mut Vec<Bad>) {
                 case: format!("oversized message for client A, then {n} messages for client B in one server frame"),
                 detail: e,
                 replay: json!({"kind": "loopback", "n": n, "size": 0, "upstream": false, "failed_write": true}),
+            }),
+        }
+    }
+    // a conditioner configured on another client's link only
+    for n in [1usize, 3, 12] {
+        let mut stalls = 0;
+        let mut result = None;
+        for _ in 0..3 {
+            match guarded(|| conditioner_on_the_other_link(n)).unwrap_or_else(|(m, l)| Err(format!("panic: {m} ({l})"))) {
+                Ok(None) => continue,
+                Err(e) if e.starts_with("STALL") => {
+                    stalls += 1;
+                    result = Some(Err(e));
+                }
+                other => {
+                    result = Some(other);
+                    break;
+                }
+            }
+        }
+        runs += 1;
+        match result {
+            None => inconclusive += 1,
+            Some(Ok(Some(d))) => {
+                outcomes.insert(3_000_000 + d);
+            }
+            Some(Ok(None)) => unreachable!(),
+            Some(Err(e)) if e.starts_with("STALL") && stalls < 3 => inconclusive += 1,
+            Some(Err(e)) => bad.push(Bad {
+                oracle: if e.starts_with("bind") || e.starts_with("connect") { "socket" } else { "loopback-other-link" },
+                case: format!("{n} messages from a client without conditioner while another client's link drops everything"),
+                detail: e,
+                replay: json!({"kind": "loopback", "n": n, "size": 0, "upstream": true, "other_link": true}),
             }),
         }
     }
@@ -938,6 +1049,19 @@ pub fn replay(doc: &serde_json::Value) -> i32 {
             }
             println!("replay passes: no violation");
             return 0;
+        }
+        if doc["other_link"].as_bool().unwrap_or(false) {
+            let n = doc["n"].as_u64().unwrap() as usize;
+            return match conditioner_on_the_other_link(n) {
+                Ok(_) => {
+                    println!("replay passes: no violation");
+                    0
+                }
+                Err(e) => {
+                    println!("VIOLATION property=C17 replay=<file> oracle=loopback-other-link :: {e}");
+                    1
+                }
+            };
         }
         if doc["failed_write"].as_bool().unwrap_or(false) {
             let n = doc["n"].as_u64().unwrap() as usize;
